@@ -58,10 +58,27 @@ def tz(x):
         f = float(x)
         if math.isnan(f) or math.isinf(f):
             return None
-        return z3.RealVal(str(Fraction(f)))
+        return z3.RealVal(str(_intended_rational(f)))
     if isinstance(x, Fraction):
         return z3.RealVal(str(x))
     raise TypeError("cannot convert %r to a real term" % (type(x),))
+
+
+_rat_cache = {}
+
+
+def _intended_rational(f):
+    """A float constant computed by the code under test (0.5, 1e-6, 1.0/3)
+    stands for the simplest rational that rounds to it (denominator <= 1e9),
+    else for its exact binary value.  Rounding of such constants is float
+    noise, which is outside the claim."""
+    r = _rat_cache.get(f)
+    if r is None:
+        exact = Fraction(f)
+        g = exact.limit_denominator(10 ** 9)
+        r = g if float(g) == f else exact
+        _rat_cache[f] = r
+    return r
 
 
 def _num(o):
